@@ -41,9 +41,14 @@ def qual(n):
     raise GenError("class reference is neither errors.<Name> nor a builtin name")
 
 
+_CONSTS = {}      # module-level `NAME = <expr>` of the file being read: a class tuple may have moved behind a name
+
+
 def class_tuple(n):
+    if isinstance(n, ast.Name) and isinstance(_CONSTS.get(n.id), (ast.Tuple, ast.Attribute)):
+        n = _CONSTS[n.id]
     if isinstance(n, ast.Tuple):
-        return [qual(e) for e in n.elts]
+        return [c for e in n.elts for c in class_tuple(e)]
     return [qual(n)]
 
 
@@ -78,6 +83,8 @@ def errors_hierarchy(tree):
 
 def handler_facts(tree):
     mod, _ = parse(tree, "Pyro5/server.py")
+    _CONSTS.clear()
+    _CONSTS.update(module_constants(mod))
     f = find_func(mod, "handleRequest", "Daemon")
     tries = [n for n in f.body if isinstance(n, ast.Try)]
     need(len(tries) == 2, "handleRequest: expected two top-level try statements, found %d" % len(tries))
@@ -180,6 +187,8 @@ def handler_facts(tree):
 
 def client_facts(tree):
     mod, _ = parse(tree, "Pyro5/client.py")
+    _CONSTS.clear()
+    _CONSTS.update(module_constants(mod))
     f = find_func(mod, "_pyroInvoke", "Proxy")
     tries = [n for n in f.body if isinstance(n, ast.Try)]
     need(len(tries) == 1 and len(tries[0].handlers) == 1, "_pyroInvoke: expected one try with one handler")
@@ -195,21 +204,70 @@ def client_facts(tree):
     return {"release_on": rel if releases else [], "sha": ast_sha(f)}
 
 
-def serializer_facts(tree):
-    mod, _ = parse(tree, "Pyro5/serializers.py")
+def reachable(mod, clsname, func, depth=2):
+    """func plus the private helpers of the same class / module it calls (cls.x(), self.x(), Class.x(), x()), `depth` levels"""
+    cls = find_class(mod, clsname)
+    methods = {n.name: n for n in cls.body if isinstance(n, ast.FunctionDef)}
+    modfuncs = {n.name: n for n in mod.body if isinstance(n, ast.FunctionDef)}
+    classnames = {n.name for n in mod.body if isinstance(n, ast.ClassDef)} | {"cls", "self"}
+    seen, frontier = [func], [func]
+    for _ in range(depth):
+        nxt = []
+        for f in frontier:
+            for c in ast.walk(f):
+                if not isinstance(c, ast.Call):
+                    continue
+                t = None
+                if isinstance(c.func, ast.Attribute) and isinstance(c.func.value, ast.Name) and c.func.value.id in classnames:
+                    t = methods.get(c.func.attr)
+                elif isinstance(c.func, ast.Name):
+                    t = modfuncs.get(c.func.id)
+                if t is not None and t not in seen:
+                    seen.append(t)
+                    nxt.append(t)
+        frontier = nxt
+    return seen
+
+
+def helper_of_call(mod, clsname, call):
+    """the FunctionDef a call like cls.x(...) / x(...) refers to, or None"""
+    fs = reachable(mod, clsname, ast.Module(body=[ast.Expr(value=call)], type_ignores=[]), depth=1)
+    return fs[1] if len(fs) > 1 else None
+
+
+def module_constants(mod):
+    out = {}
+    for n in mod.body:
+        if isinstance(n, ast.Assign) and len(n.targets) == 1 and isinstance(n.targets[0], ast.Name):
+            out[n.targets[0].id] = n.value
+    return out
+
+
+def ctd_keys_ast(mod):
     ctd = find_func(mod, "class_to_dict", "SerializerBase")
     keys = None
     for n in ast.walk(ctd):
         if isinstance(n, ast.If) and isinstance(n.test, ast.Call) and isinstance(n.test.func, ast.Name) and n.test.func.id == "isinstance" \
                 and len(n.test.args) == 2 and isinstance(n.test.args[1], ast.Name) and n.test.args[1].id == "BaseException":
-            rets = [s for s in n.body if isinstance(s, ast.Return)]
-            need(len(rets) == 1 and isinstance(rets[0].value, ast.Dict), "class_to_dict: exception branch does not return a dict literal")
+            rets = [st for st in n.body if isinstance(st, ast.Return)]
+            need(len(rets) == 1, "class_to_dict: exception branch does not return exactly once")
             d = rets[0].value
+            if isinstance(d, ast.Call):          # the dict is built by a private helper
+                h = helper_of_call(mod, "SerializerBase", d)
+                need(h is not None, "class_to_dict: exception branch returns a call that is not a helper of this module")
+                hrets = [st for st in ast.walk(h) if isinstance(st, ast.Return)]
+                need(len(hrets) == 1, "class_to_dict: exception helper does not return exactly once")
+                d = hrets[0].value
+            need(isinstance(d, ast.Dict), "class_to_dict: exception branch does not return a dict literal")
             keys = []
             for k, v in zip(d.keys, d.values):
                 need(isinstance(k, ast.Constant) and isinstance(k.value, str), "class_to_dict: non-literal key")
                 src = ast.dump(v)
                 if k.value == "__class__":
+                    if isinstance(v, ast.Call) and "__module__" not in src:
+                        h = helper_of_call(mod, "SerializerBase", v)
+                        need(h is not None, "class_to_dict: __class__ is computed by an unknown call")
+                        src = ast.dump(h)
                     need("__module__" in src and "__name__" in src, "class_to_dict: __class__ is not module + name")
                 elif k.value == "__exception__":
                     need(isinstance(v, ast.Constant) and v.value is True, "class_to_dict: __exception__ is not True")
@@ -221,34 +279,139 @@ def serializer_facts(tree):
                     raise GenError("class_to_dict: unknown key %r in the exception dict" % k.value)
                 keys.append(k.value)
     need(keys is not None, "class_to_dict: `if isinstance(obj, BaseException)` branch not found")
-    mk = find_func(mod, "make_exception", "SerializerBase")
-    src = ast.dump(mk)
-    ctor_star = any(isinstance(c, ast.Call) and isinstance(c.func, ast.Name) and c.func.id == "exceptiontype" and len(c.args) == 1
-                    and isinstance(c.args[0], ast.Starred) for c in ast.walk(mk))
-    need(ctor_star, "make_exception: does not call exceptiontype(*data['args'])")
-    restores = any(isinstance(n, ast.For) and any(isinstance(c, ast.Call) and isinstance(c.func, ast.Name) and c.func.id == "setattr"
-                                                    for c in ast.walk(n)) and "attributes" in ast.dump(n.iter) for n in ast.walk(mk))
+    return keys
+
+
+class _ProbeError(ValueError):
+    pass
+
+
+def probe_exception():
+    e = ValueError("a", 1)
+    e.__dict__.update({"foo": [1, None], "zero": 0, "none": None, "empty": "", "_p": {"k": 1}, "__x__": 2, "has space": 3})
+    if hasattr(e, "add_note"):
+        e.add_note("n")
+    return e
+
+
+def ctd_keys_probed(tree):
+    """second reader: what SerializerBase.class_to_dict actually builds for an exception object"""
+    from tools.gen.gen import tree_module
+    ser = tree_module(tree, "Pyro5.serializers")
+    e = probe_exception()
+    want = dict(vars(e))
+    d = ser.SerializerBase.class_to_dict(e)
+    need(isinstance(d, dict), "class_to_dict(exception) does not give a dict")
+    for k, v in d.items():
+        if k == "__class__":
+            need(v == "builtins.ValueError", "class_to_dict: __class__ of ValueError is %r" % (v,))
+        elif k == "__exception__":
+            need(v is True, "class_to_dict: __exception__ is %r" % (v,))
+        elif k == "args":
+            need(tuple(v) == ("a", 1), "class_to_dict: args of ValueError('a', 1) are %r" % (v,))
+        elif k == "attributes":
+            need(dict(v) == want, "class_to_dict: attributes are not vars(obj): %r" % (v,))
+        else:
+            raise GenError("class_to_dict: unknown key %r in the exception dict" % (k,))
+    return list(d)
+
+
+def restores_probed(tree):
+    from tools.gen.gen import tree_module
+    ser = tree_module(tree, "Pyro5.serializers")
+    attrs = {"foo": [1], "zero": 0, "none": None, "_p": "", "__x__": 2, "__notes__": ["n"], "has space": 3}
+    ex = ser.SerializerBase.make_exception(ValueError, {"args": ["a", 1], "attributes": dict(attrs)})
+    need(type(ex) is ValueError and ex.args == ("a", 1), "make_exception(ValueError, args) gives %r" % (ex,))
+    got = dict(vars(ex))
+    if got == attrs:
+        return True
+    need(not got, "make_exception restores only some attributes: %r" % sorted(got))
+    return False
+
+
+def d2c_facts_ast(mod):
     d2c = find_func(mod, "dict_to_class", "SerializerBase")
-    lits = [n.value for n in ast.walk(d2c) if isinstance(n, ast.Constant) and isinstance(n.value, str)]
-    dunder = [n for n in ast.walk(d2c) if isinstance(n, ast.If) and isinstance(n.test, ast.Compare) and len(n.test.ops) == 1
+    funcs = reachable(mod, "SerializerBase", d2c, depth=2)
+    consts = module_constants(mod)
+    nodes = [n for f in funcs for n in ast.walk(f)]
+    lits = [n.value for n in nodes if isinstance(n, ast.Constant) and isinstance(n.value, str)]
+    dunder = [n for n in nodes if isinstance(n, ast.If) and isinstance(n.test, ast.Compare) and len(n.test.ops) == 1
               and isinstance(n.test.ops[0], ast.In) and isinstance(n.test.left, ast.Constant) and n.test.left.value == "__"
-              and any(isinstance(s, ast.Raise) for s in n.body)]
-    prefixes = [c.args[0].value for c in ast.walk(d2c) if isinstance(c, ast.Call) and isinstance(c.func, ast.Attribute)
+              and any(isinstance(st, ast.Raise) for st in n.body)]
+    prefixes = [c.args[0].value for c in nodes if isinstance(c, ast.Call) and isinstance(c.func, ast.Attribute)
                 and c.func.attr == "startswith" and len(c.args) == 1 and isinstance(c.args[0], ast.Constant)]
     need("Pyro5.errors." in prefixes, "dict_to_class: no startswith('Pyro5.errors.') branch")
-    ns = [class_tuple_str(n.test.comparators[0]) for n in ast.walk(d2c) if isinstance(n, ast.If) and isinstance(n.test, ast.Compare)
-          and isinstance(n.test.left, ast.Name) and n.test.left.id == "namespace" and isinstance(n.test.ops[0], ast.In)]
+    ns = []
+    for n in nodes:
+        if isinstance(n, ast.If) and isinstance(n.test, ast.Compare) and isinstance(n.test.left, ast.Name) \
+                and n.test.left.id == "namespace" and isinstance(n.test.ops[0], ast.In):
+            c = n.test.comparators[0]
+            if isinstance(c, ast.Name) and c.id in consts:     # the literal moved behind a module-level name
+                c = consts[c.id]
+            ns.append(class_tuple_str(c))
     need(len(ns) == 1, "dict_to_class: `namespace in (...)` test not found exactly once")
     uses_all = any(isinstance(n, ast.Compare) and isinstance(n.ops[0], ast.In) and isinstance(n.comparators[0], ast.Name)
-                   and n.comparators[0].id == "all_exceptions" for n in ast.walk(d2c))
+                   and n.comparators[0].id == "all_exceptions" for n in nodes)
     need("__exception__" in lits, "dict_to_class: does not test the __exception__ flag")
-    # Marshal dumpsCall: does it tolerate kwargs=None?
-    mcls = find_class(mod, "MarshalSerializer")
-    mdc = [n for n in mcls.body if isinstance(n, ast.FunctionDef) and n.name == "dumpsCall"]
-    need(len(mdc) == 1, "MarshalSerializer.dumpsCall not found")
-    return {"ctd_keys": keys, "restores_attrs": restores, "dunder_refused": len(dunder) == 1, "builtin_namespaces": ns[0],
-            "uses_all_exceptions": uses_all,
-            "sha": {"class_to_dict": ast_sha(ctd), "make_exception": ast_sha(mk), "dict_to_class": ast_sha(d2c)}}
+    return {"dunder_refused": len(dunder) == 1, "builtin_namespaces": ns[0], "uses_all_exceptions": uses_all}
+
+
+def d2c_facts_probed(tree):
+    """second reader: ask dict_to_class itself (candidate namespaces only: a namespace nobody names cannot be discovered)"""
+    from tools.gen.gen import tree_module
+    ser = tree_module(tree, "Pyro5.serializers")
+    errs = tree_module(tree, "Pyro5.errors")
+
+    def decode(classname, flag=True):
+        d = {"__class__": classname, "args": ["a"], "attributes": {}}
+        if flag:
+            d["__exception__"] = True
+        try:
+            return ser.SerializerBase.dict_to_class(d)
+        except BaseException as x:
+            return x
+    ns = [c for c in ["builtins", "exceptions", "__builtin__", "builtin", "python"] if type(decode(c + ".ValueError")) is ValueError
+          and getattr(decode(c + ".ValueError"), "args", None) == ("a",)]
+    need(ns, "dict_to_class recreates builtins.ValueError under none of the candidate namespaces")
+    r = decode("__main__.ValueError")
+    dunder = isinstance(r, errs.SecurityError)
+    r = decode("ValueError")
+    uses_all = type(r) is ValueError and r.args == ("a",)
+    need(isinstance(decode("Pyro5.errors.NamingError", flag=False), errs.NamingError), "dict_to_class does not recreate Pyro5.errors.NamingError")
+    return {"dunder_refused": dunder, "builtin_namespaces": [c for c in ns if "__" not in c], "uses_all_exceptions": uses_all}
+
+
+def serializer_facts(tree):
+    mod, _ = parse(tree, "Pyro5/serializers.py")
+    modes = {}
+    try:
+        keys = ctd_keys_ast(mod)
+        modes["class_to_dict"] = "ast"
+    except GenError as x:
+        keys = ctd_keys_probed(tree)
+        modes["class_to_dict"] = "probed (ast reader: %s)" % x
+    try:
+        mk = find_func(mod, "make_exception", "SerializerBase")
+        ctor_star = any(isinstance(c, ast.Call) and isinstance(c.func, ast.Name) and len(c.args) == 1
+                        and isinstance(c.args[0], ast.Starred) for c in ast.walk(mk))
+        need(ctor_star, "make_exception: does not call exceptiontype(*data['args'])")
+        fors = [n for n in ast.walk(mk) if isinstance(n, ast.For) and any(isinstance(c, ast.Call) and isinstance(c.func, ast.Name)
+                                                                          and c.func.id == "setattr" for c in ast.walk(n))]
+        need(len(fors) <= 1, "make_exception: more than one attribute loop")
+        restores = any("attributes" in ast.dump(n.iter) for n in fors)
+        modes["make_exception"] = "ast"
+    except GenError as x:
+        restores = restores_probed(tree)
+        modes["make_exception"] = "probed (ast reader: %s)" % x
+    try:
+        df = d2c_facts_ast(mod)
+        modes["dict_to_class"] = "ast"
+    except GenError as x:
+        df = d2c_facts_probed(tree)
+        modes["dict_to_class"] = "probed (ast reader: %s)" % x
+    out = {"ctd_keys": keys, "restores_attrs": restores, "mode": modes}
+    out.update(df)
+    return out
 
 
 def class_tuple_str(n):
